@@ -295,13 +295,13 @@ def _real_attempt(opnames, ro, closed, folder):
         tmp = eko.metadata._path
         out = {}
         for name in opnames:
-            sha0, tree0 = persistent(), sha_tree(tmp)
+            sha0, tree0 = persistent(), sha_tree(tmp, mtime=True)
             raised = None
             try:
                 apply_op(eko, OPS[name], w)
             except Exception as e:  # noqa
                 raised = e
-            sha1, tree1 = persistent(), sha_tree(tmp)
+            sha1, tree1 = persistent(), sha_tree(tmp, mtime=True)
             out = {"op": name, "raised": type(raised).__name__ if raised is not None else None, "persistent_changed": sha0 != sha1,
                    "tmp_changed": tree0 != tree1, "archive_exists": path.exists()}
         return out
